@@ -29,7 +29,13 @@ type mfCase struct {
 	Deps   []mfDep `json:"deps,omitempty"`
 	Custom int     `json:"custom,omitempty"`
 	Strict bool    `json:"strict"`
+	// Desc: a description field is present; EmptyDeps: `deps: {}` is written
+	// although there is no dependency
+	Desc      bool `json:"desc,omitempty"`
+	EmptyDeps bool `json:"emptyDeps,omitempty"`
 }
+
+const mfDescription = "what the module is for"
 
 var (
 	mfModules = []string{"x.test/m@v0", "x.test/m@v1", "x.test/m", "x.test/m@v1.2", ""}
@@ -70,6 +76,12 @@ func (c mfCase) text() string {
 			b.WriteString("}\n")
 		}
 		b.WriteString("}\n")
+	}
+	if len(c.Deps) == 0 && c.EmptyDeps {
+		b.WriteString("deps: {}\n")
+	}
+	if c.Desc {
+		fmt.Fprintf(&b, "description: %q\n", mfDescription)
 	}
 	if c.Custom > 0 {
 		b.WriteString(mfCustoms[c.Custom] + "\n")
@@ -199,7 +211,7 @@ var edits = []edit{
 }
 
 func runModfiles(r *core.Run) {
-	r.Section(fmt.Sprintf("module files: %d module paths x %d language versions x %d sources x <=2 of %d deps x %d custom values x {strict, non-strict}; each accepted file x %d single edits", len(mfModules), len(mfLangs), len(mfSources), len(mfDeps), len(mfCustoms), len(edits)))
+	r.Section(fmt.Sprintf("module files: %d module paths x %d language versions x %d sources x <=2 of %d deps x %d custom values x {strict, non-strict} x {description, `deps: {}` present or not}; each accepted file x %d single edits", len(mfModules), len(mfLangs), len(mfSources), len(mfDeps), len(mfCustoms), len(edits)))
 	var depSets [][]mfDep
 	depSets = append(depSets, nil)
 	for i := range mfDeps {
@@ -222,17 +234,23 @@ func runModfiles(r *core.Run) {
 							if (cu > 0 || s == "bzr") && l != "v0.9.0" && l != "v0.18.0" && l != "v0.8.0" {
 								continue
 							}
-							if !r.Mine() {
-								if r.Expired() {
-									return
-								}
-								continue
+							if r.Expired() {
+								return
 							}
-							c := kase{Kind: "modfile"}
-							mc := mfCase{Module: m, Lang: l, Source: s, Deps: ds, Custom: cu, Strict: strict}
-							b, _ := json.Marshal(mc)
-							c.Text = string(b)
-							r.Guard(c, func() { checkModfile(r, c) })
+							for shape := 0; shape < 4; shape++ {
+								// shape: description present (1), `deps: {}` (2), both (3)
+								if shape >= 2 && len(ds) > 0 {
+									continue
+								}
+								if !r.Mine() {
+									continue
+								}
+								c := kase{Kind: "modfile"}
+								mc := mfCase{Module: m, Lang: l, Source: s, Deps: ds, Custom: cu, Strict: strict, Desc: shape&1 != 0, EmptyDeps: shape&2 != 0}
+								b, _ := json.Marshal(mc)
+								c.Text = string(b)
+								r.Guard(c, func() { checkModfile(r, c) })
+							}
 						}
 					}
 				}
@@ -292,6 +310,10 @@ func checkModfile(r *core.Run, c kase) {
 	}
 	if (mc.Custom > 0) != (len(f.Custom) > 0) {
 		viol("parsed value loses custom data", fileJSON(f))
+		return
+	}
+	if wantDesc := map[bool]string{true: mfDescription}[mc.Desc]; f.Description != wantDesc {
+		viol("parsed value loses the description", fileJSON(f))
 		return
 	}
 	data, err := modfile.Format(f)
